@@ -7,7 +7,8 @@ Import ListNotations.
 Section Cache.
   Context {M : Type}.
   (** One call of [CacheRewriter.rewrite]: the file and, when the result is modified, the map
-      decoded from the trailer of its content ([None]: the result was not modified). *)
+      decoded from the trailer of its content ([None]: the result was not modified, or the rewrite
+      failed -- either way the caller serves the file as written). *)
   Definition rewrite_event := (string * option M)%type.
   Definition cache := list (string * M).
 
@@ -23,7 +24,7 @@ Section Cache.
     | (g, m) :: r => if String.eqb f g then cache_remove r f else (g, m) :: cache_remove r f
     end.
 
-  (** modified: [cacheRewrittenSourceMap]; not modified: the stale entry is dropped. *)
+  (** modified: [cacheRewrittenSourceMap]; not modified or failed: the stale entry is dropped. *)
   Definition cache_step (c : cache) (e : rewrite_event) : cache :=
     match snd e with
     | Some m => (fst e, m) :: cache_remove c (fst e)
